@@ -32,14 +32,11 @@ func DatabaseNew(dbpath string) (*DB, error) {
 		return nil, err
 	}
 
-	if !db.existed {
-
-		/* create db tables */
-		err = db.init()
-		if err != nil {
-			return nil, err
-		}
-
+	/* create the db tables that are not there yet. a file that exists may
+	 * still lack some: a first start that was killed while it created them */
+	err = db.init()
+	if err != nil {
+		return nil, err
 	}
 
 	return db, nil
@@ -48,17 +45,17 @@ func DatabaseNew(dbpath string) (*DB, error) {
 func (db *DB) init() error {
 	var err error
 
-	_, err = db.db.Exec(`CREATE TABLE "TS_Listeners" ("Name" text UNIQUE, "Protocol" text, "Config" text);`)
+	_, err = db.db.Exec(`CREATE TABLE IF NOT EXISTS "TS_Listeners" ("Name" text UNIQUE, "Protocol" text, "Config" text);`)
 	if err != nil {
 		return err
 	}
 
-	_, err = db.db.Exec(`CREATE TABLE "TS_Agents" ("AgentID" int, "Active" int, "Reason" text, "AESKey" text, "AESIv" text, "Hostname" text, "Username" text, "DomainName" text, "ExternalIP" text, "InternalIP" text, "ProcessName" text, BaseAddress int, "ProcessPID" int, "ProcessTID" int, "ProcessPPID" int, "ProcessArch" text, "Elevated" text, "OSVersion" text, "OSArch" text, "SleepDelay" int, "SleepJitter" int, "KillDate" int, "WorkingHours" int, "FirstCallIn" text, "LastCallIn" text);`)
+	_, err = db.db.Exec(`CREATE TABLE IF NOT EXISTS "TS_Agents" ("AgentID" int, "Active" int, "Reason" text, "AESKey" text, "AESIv" text, "Hostname" text, "Username" text, "DomainName" text, "ExternalIP" text, "InternalIP" text, "ProcessName" text, BaseAddress int, "ProcessPID" int, "ProcessTID" int, "ProcessPPID" int, "ProcessArch" text, "Elevated" text, "OSVersion" text, "OSArch" text, "SleepDelay" int, "SleepJitter" int, "KillDate" int, "WorkingHours" int, "FirstCallIn" text, "LastCallIn" text);`)
 	if err != nil {
 		return err
 	}
 
-	_, err = db.db.Exec(`CREATE TABLE "TS_Links" ("ParentAgentID" int, "LinkAgentID" int);`)
+	_, err = db.db.Exec(`CREATE TABLE IF NOT EXISTS "TS_Links" ("ParentAgentID" int, "LinkAgentID" int);`)
 	if err != nil {
 		return err
 	}
